@@ -311,17 +311,8 @@ impl<const N: u32> PxE2<{ N }> {
 
         let ui_a = if (N == 2) && (i_a > 0) {
             0x_4000_0000
-        } else if i_a > 2_147_483_135 {
-            //2147483136 to 2147483647 rounds to P32 value (2147483648)=> 0x7FB00000
-            let mut ui_a = 0x_7FB0_0000; // 2147483648
-            if N < 10 {
-                ui_a &= Self::mask();
-            } else if N < 12 {
-                ui_a = 0x_7FF0_0000 & Self::mask();
-            }
-            ui_a
         } else {
-            convert_u32_to_px2bits::<{ N }>(i_a)
+            convert_u64_to_px2bits::<{ N }>(i_a as u64)
         };
         Self::from_bits(u32_with_sign(ui_a, sign))
     }
@@ -329,36 +320,21 @@ impl<const N: u32> PxE2<{ N }> {
     pub const fn from_u32(a: u32) -> Self {
         let ui_a = if (N == 2) && (a > 0) {
             0x_4000_0000
-        } else if a > 0x_FFFF_FBFF {
-            //4294966271
-            let mut ui_a = 0x_7FC0_0000; // 4294967296
-            if N < 12 {
-                ui_a &= Self::mask();
-            }
-            ui_a
         } else {
-            convert_u32_to_px2bits::<{ N }>(a)
+            convert_u64_to_px2bits::<{ N }>(a as u64)
         };
         Self::from_bits(ui_a)
     }
 
-    pub const fn from_i64(mut i_a: i64) -> Self {
+    pub const fn from_i64(i_a: i64) -> Self {
         let sign = i_a.is_negative();
-        if sign {
-            i_a = -i_a;
-        }
+        // magnitude as u64: -i64::MIN does not fit an i64
+        let i_a = i_a.unsigned_abs();
 
         let ui_a = if (N == 2) && (i_a > 0) {
             0x_4000_0000
-        } else if i_a > 0x_7FFD_FFFF_FFFF_FFFF {
-            //9222809086901354495
-            let mut ui_a = 0x_7FFF_B000; // P32: 9223372036854775808
-            if N < 18 {
-                ui_a &= Self::mask();
-            }
-            ui_a
         } else {
-            convert_u32_to_px2bits::<{ N }>(i_a as u32)
+            convert_u64_to_px2bits::<{ N }>(i_a)
         };
         Self::from_bits(u32_with_sign(ui_a, sign))
     }
@@ -400,57 +376,6 @@ impl<const N: u32> PxE2<{ N }> {
     }
 }
 
-const fn convert_u32_to_px2bits<const N: u32>(a: u32) -> u32 {
-    let mut log2 = 31_i8; //length of bit (e.g. 4294966271) in int (32 but because we have only 32 bits, so one bit off to accomdate that fact)
-    let mut mask = 0x_8000_0000_u32;
-    if a < 0x2 {
-        a << 30
-    } else {
-        let mut frac_a = a;
-
-        while (frac_a & mask) == 0 {
-            log2 -= 1;
-            frac_a <<= 1;
-        }
-        let k = (log2 >> 2) as u32;
-        let exp_a = (log2 & 0x3) as u32;
-        frac_a ^= mask;
-
-        let mut ui_a: u32;
-        if k >= (N - 2) {
-            //maxpos
-            ui_a = 0x_7FFF_FFFF & PxE2::<{ N }>::mask();
-        } else if k == (N - 3) {
-            //bitNPlusOne-> first exp bit //bitLast is zero
-            ui_a = 0x_7FFF_FFFF ^ (0x_3FFF_FFFF >> k);
-            if ((exp_a & 0x2) != 0) && (((exp_a & 0x1) | frac_a) != 0) {
-                //bitNPlusOne //bitsMore
-                ui_a |= 0x_8000_0000_u32 >> (N - 1);
-            }
-        } else if k == (N - 4) {
-            ui_a = (0x_7FFF_FFFF ^ (0x_3FFF_FFFF >> k)) | ((exp_a & 0x2) << (27 - k));
-            if ((exp_a & 0x1) != 0) && ((((0x_8000_0000_u32 >> (N - 1)) & ui_a) | frac_a) != 0) {
-                ui_a += 0x_8000_0000_u32 >> (N - 1);
-            }
-        } else if k == (N - 5) {
-            ui_a = (0x_7FFF_FFFF ^ (0x_3FFF_FFFF >> k)) | (exp_a << (27 - k));
-            mask = 0x8 << (k - N);
-            if ((mask & frac_a) != 0) && ((((mask - 1) & frac_a) | (exp_a & 0x1)) != 0) {
-                //bitNPlusOne
-                ui_a += 0x_8000_0000_u32 >> (N - 1);
-            }
-        } else {
-            ui_a = ((0x_7FFF_FFFF ^ (0x_3FFF_FFFF >> k)) | (exp_a << (27 - k)) | frac_a >> (k + 4))
-                & PxE2::<{ N }>::mask();
-            mask = 0x8 << (k - N); //bitNPlusOne
-            if ((mask & frac_a) != 0) && ((((mask - 1) & frac_a) | ((mask << 1) & frac_a)) != 0) {
-                ui_a += 0x_8000_0000_u32 >> (N - 1);
-            }
-        }
-        ui_a
-    }
-}
-
 const fn convert_u64_to_px2bits<const N: u32>(a: u64) -> u32 {
     let mut log2 = 63_i8; //length of bit (e.g. 18445618173802708991) in int (64 but because we have only 64 bits, so one bit off to accommodate that fact)
     let mut mask = 0x_8000_0000_0000_0000_u64;
@@ -469,24 +394,24 @@ const fn convert_u64_to_px2bits<const N: u32>(a: u64) -> u32 {
         frac64_a ^= mask;
 
         let mut ui_a: u32;
-        if k >= (N - 2) {
+        if k + 2 >= N {
             //maxpos
             ui_a = 0x_7FFF_FFFF & PxE2::<{ N }>::mask();
-        } else if k == (N - 3) {
+        } else if k + 3 == N {
             //bitNPlusOne-> first exp bit //bitLast is zero
             ui_a = 0x_7FFF_FFFF ^ (0x_3FFF_FFFF >> k);
             if ((exp_a & 0x2) != 0) && (((exp_a & 0x1) as u64 | frac64_a) != 0) {
                 //bitNPlusOne //bitsMore
                 ui_a |= 0x_8000_0000_u32 >> (N - 1);
             }
-        } else if k == (N - 4) {
+        } else if k + 4 == N {
             ui_a = (0x_7FFF_FFFF ^ (0x_3FFF_FFFF >> k)) | ((exp_a & 0x2) << (27 - k));
             if ((exp_a & 0x1) != 0)
                 && ((((0x_8000_0000_u32 >> (N - 1)) & ui_a) != 0) || (frac64_a != 0))
             {
                 ui_a += 0x_8000_0000_u32 >> (N - 1);
             }
-        } else if k == (N - 5) {
+        } else if k + 5 == N {
             ui_a = (0x_7FFF_FFFF ^ (0x_3FFF_FFFF >> k)) | (exp_a << (27 - k));
             mask = 0x_0008_0000_0000_u64 << (k + 32 - N);
             if (mask & frac64_a) != 0 {
